@@ -60,6 +60,7 @@ func livesimFuncs(p *Program) []*ssa.Function {
 }
 
 func checkC04(p *Program, r *Reporter) {
+	unitsRuleByName(p, r, "cfgFromRequest", "findSegMetaFromNr", "findSegMetaFromTime", "findRefSegMetaFromTime", "calcSegmentAvailabilityTime")
 	r.Explanation = "Static analysis of structural necessary conditions of C04: (a) E5 sentinel propagation: every error that may carry not-found / too-early / gone is returned on all non-nil paths of every error-returning function " +
 		"between the segment lookup and the HTTP handler, wrapped only with %w, and the handler's errors.Is/As branches answer 404 / 425 / 410; (b) E4: every call of the availability test receives an availability time that depends on the start time, " +
 		"a window that depends on tsbd, an offset that depends on ato and a 'now' that depends on the request's nowMS, and the too-early error carries a remaining time that depends on ato; " +
@@ -118,9 +119,11 @@ func checkC04(p *Program, r *Reporter) {
 	r.Rule("E3-B1", "", 0)
 	r.Rule("E3-Bx", "", 0)
 	e.classB("E3-B", wrapFns)
+	belowStartRule(p, r, wrapFns)
 }
 
 func checkC02(p *Program, r *Reporter) {
+	unitsRuleByName(p, r, "LiveMPD", "cfgFromRequest", "findSegMetaFromNr", "findSegMetaFromTime", "findRefSegMetaFromTime")
 	r.Explanation = "Static analysis of two agreement clauses of C02 by dependence slices (E4): (a) the availability instant used by the segment server depends on availabilityStartTime, timeShiftBufferDepth, availabilityTimeOffset and the request's now " +
 		"at every call site of the availability test, i.e. in every addressing mode the MPD can advertise; (b) the segment-number -> segment mapping of the server depends on the configured start number, and so does every startNumber the MPD generator stores " +
 		"(reported as a known finding where it does not). Decides these structural clauses; numeric equality of times, durations and numbers, contiguity and window edges are not decided."
@@ -182,6 +185,7 @@ func checkC02(p *Program, r *Reporter) {
 	deliverySiblings(p, r)
 	// (e) "no segment yet" sentinels
 	sentinelGuards(p, r)
+	sentinelGuardShape(p, r)
 	searchConvention(p, r)
 }
 
@@ -243,6 +247,61 @@ func sentinelGuards(p *Program, r *Reporter) {
 				sep := holds(bo.Op, -1, k) != holds(bo.Op, 0, k)
 				r.Decide(sep, "E5-SENTINELGUARD", shortFn(fn), "test:"+f, p.pos(bo.Pos()), "separates the sentinel -1 from the valid value 0",
 					fmt.Sprintf("the test %s treats the valid number 0 like the 'no segment yet' sentinel -1 (or the sentinel like a valid number): the first segment's startNumber/publishTime is lost", bo.String()), nil)
+			}
+		}
+	}
+}
+
+// sentinelGuardShape: a condition that decides whether a value computed from a sentinel-carrying field is
+// stored (startNumber of a SegmentTimeline) and that itself depends on that field must test the field
+// directly against a constant. A test of a derived value (field + configured start number) moves the
+// boundary between "no segment yet" and "first segment" with the configuration.
+func sentinelGuardShape(p *Program, r *Reporter) {
+	r.Rule("E5-SENTINELSHAPE", "stores computed from the 'no segment yet' field are guarded by a direct test of that field", 1)
+	const fld = "app.segEntries.startNr"
+	for _, fn := range livesimFuncs(p) {
+		for _, b := range fn.Blocks {
+			for _, in := range b.Instrs {
+				st, ok := in.(*ssa.Store)
+				if !ok {
+					continue
+				}
+				f, ok := fieldOfAddr(st.Addr)
+				if !ok || f != "mpd.MultipleSegmentBaseType.StartNumber" || isNilConst(st.Val) {
+					continue
+				}
+				q := newDepQuery(p, onField(fld))
+				q.noParams = true
+				if !q.depends(st.Val, 0) {
+					continue
+				}
+				direct, derived := 0, ""
+				for _, cd := range effectiveCDeps(b, true) {
+					bo, isBin := cd.V.(*ssa.BinOp)
+					if !isBin {
+						continue
+					}
+					qc := newDepQuery(p, onField(fld))
+					qc.noParams = true
+					if !qc.depends(cd.V, 0) {
+						continue
+					}
+					lf, isLoad := loadedField(bo.X)
+					_, isConst := constInt(bo.Y)
+					if isLoad && lf == fld && isConst {
+						direct++
+					} else {
+						derived = bo.String() + " at " + p.pos(bo.Pos())
+					}
+				}
+				switch {
+				case derived != "":
+					r.Violate("E5-SENTINELSHAPE", shortFn(fn), "guard-of:StartNumber", p.pos(st.Pos()), "the store is decided by a test of a value derived from the sentinel field ("+derived+"), not of the field itself: whether the first number counts as 'no segment yet' then depends on the configured start number", nil)
+				case direct == 0:
+					r.Violate("E5-SENTINELSHAPE", shortFn(fn), "guard-of:StartNumber", p.pos(st.Pos()), "a startNumber computed from the 'no segment yet' field is stored without testing the field", nil)
+				default:
+					r.Discharge("E5-SENTINELSHAPE", shortFn(fn), "guard-of:StartNumber", p.pos(st.Pos()), "guarded by a direct test of segEntries.startNr")
+				}
 			}
 		}
 	}
